@@ -6,7 +6,25 @@ E = 'pexpect.expect.Expecter.'
 SS = 'pexpect.expect.searcher_string.'
 SR = 'pexpect.expect.searcher_re.'
 
+SCRN = 'pexpect.screen.'
+
+
+def _screen_contracts():
+    from . import screen as sc
+    from pyvc.cbase import Registry
+    r = Registry()
+    sc.register(r)
+    return sorted(r.contracts)
+
+
 PROPS = {
+    'C19': {
+        'contracts': _screen_contracts(),
+        'assumptions': [
+            'list indexing, slicing and slice assignment on the grid follow CPython semantics (rows are shared objects; copy.deepcopy yields fresh rows)',
+            'characters are text (str); the bytes-input path (_decode) is covered only as far as the representation invariant',
+        ],
+    },
     'C02': {
         'contracts': [SS + '__init__', SS + 'search', SR + '__init__', SR + 'search', E + 'do_search'],
         'assumptions': [
